@@ -409,6 +409,72 @@ def k_grouped_function_params(rng, w, a):
     return True
 
 
+def k_forall_multi_var(rng, w, a):
+    """PDDL allows a typed LIST of variables after forall; the library represents one variable"""
+    u = _unary(w)
+    if not u:
+        return False
+    vars_ = rng.choice([["?q8", "?q9", "-", "object"], ["?q8", "-", "object", "?q9", "-", "object"]])
+    a["pre"] = _and_body(a["pre"]) + [["forall", vars_, ["and", [u[0][0], "?q8"], [u[0][0], "?q9"]]]]
+    return True
+
+
+def k_forall_untyped_var(rng, w, a):
+    u = _unary(w)
+    if not u:
+        return False
+    a["pre"] = _and_body(a["pre"]) + [["forall", ["?q9"], ["and", [u[0][0], "?q9"]]]]
+    return True
+
+
+def k_forall_effect_multi_var(rng, w, a):
+    u = _unary(w)
+    if not u:
+        return False
+    vars_ = rng.choice([["?u8", "?u9", "-", "object"], ["?u9"], ["?u8", "-", "object", "?u9", "-", "object"]])
+    a["eff"] = a["eff"] + [["forall", vars_, ["when", [u[0][0], "?u9"], [u[0][0], vars_[0]]]]]
+    return True
+
+
+def k_no_precondition_section(rng, w, a):
+    """':precondition' is optional in the grammar; the library wants the three sections"""
+    a["layout"] = [":parameters", ":effect"]
+    return True
+
+
+def k_no_effect_section(rng, w, a):
+    a["layout"] = [":parameters", ":precondition"]
+    return True
+
+
+def k_sections_reordered(rng, w, a):
+    # ':parameters' stays first: a body before it is garbage no grammar derives (model and library differ there when the
+    # body mentions no variable - the library raises AttributeError, the model reads it; see requests/C01.md)
+    a["layout"] = [":parameters", ":effect", ":precondition"]
+    return True
+
+
+def k_when_empty_result(rng, w, a):
+    at = _atom(rng, w, list(a["params"]))
+    if not at:
+        return False
+    a["eff"] = a["eff"] + [["when", at, ["and"]]]
+    return True
+
+
+def k_numeral_forms(rng, w, a):
+    """numerals the grammar does not derive but float() reads: '1.', '.5', '1e1', '+2', '1_0'"""
+    fl = G.gen_fluent(rng, w, list(a["params"]))
+    if not fl:
+        return False
+    c = rng.choice(["1.", ".5", "1e1", "+2", "1_0", "0x10"])
+    if rng.random() < 0.5:
+        a["pre"] = _and_body(a["pre"]) + [[">=", fl, c]]
+    else:
+        a["eff"] = a["eff"] + [["increase", fl, c]]
+    return True
+
+
 PLANTERS = {
     "single-literal-body": k_single_literal_body, "top-level-not-body": k_top_not_body,
     "single-literal-effect": k_single_literal_effect,
@@ -432,6 +498,11 @@ PLANTERS = {
     "unbound-variable": k_unbound_variable, "unbound-variable-fn": k_unbound_variable_fn,
     "trailing-untyped-constants": k_trailing_untyped_constants,
     "grouped-function-params": k_grouped_function_params,
+    "forall-multi-var": k_forall_multi_var, "forall-untyped-var": k_forall_untyped_var,
+    "forall-effect-multi-var": k_forall_effect_multi_var,
+    "no-precondition-section": k_no_precondition_section, "no-effect-section": k_no_effect_section,
+    "sections-reordered": k_sections_reordered, "when-empty-result": k_when_empty_result,
+    "numeral-forms": k_numeral_forms,
 }
 # the forms the property's quantifier names, by the planters that produce them
 NAMED_BY_PROPERTY = {
@@ -906,6 +977,17 @@ def s_const_first(rng, w, a, variant):
     elif where == "when-ante":
         a["pre"] = ["and"]
         a["eff"] = a["eff"] + [["when", rng.choice(lits), ["pw"]]]
+    elif where == "forall-pre":
+        qt = rng.choice(w.all_types())
+        a["pre"] = _and_body(a["pre"]) + [["forall", ["?qy", "-", qt], [rng.choice(["and", "or"]),
+                                           rng.choice([["pb", "kc", "?qy"], ["not", ["pb", "kc", "?qy"]], ["pt", "kc", "?qy", x], ["pt", x, "kc", "?qy"]])]]]
+    elif where == "forall-when":
+        a["pre"] = ["and"]
+        qt = rng.choice(w.all_types())
+        if "pv" not in {n for n, _ in w.preds}:
+            w.preds = list(w.preds) + [("pv", [("?a0", "object")])]
+        a["eff"] = a["eff"] + [["forall", ["?uy", "-", qt], ["when", rng.choice([["pb", "kc", "?uy"], ["pt", "kc", "?uy", x]]),
+                                                             rng.choice([["pv", "?uy"], ["pb", "?uy", "kc"], ["not", ["pb", "kc", "?uy"]]])]]]
     else:
         a["pre"] = ["and"]
         a["eff"] = a["eff"] + [["when", _zlit_or_true(rng, w, a), rng.choice(lits)]]
@@ -1011,7 +1093,55 @@ def s_shadow(rng, w, a, variant):
     return {"fluents": {}, "facts": ["pu", "pz"], "focus": a["name"], "tag": "scoping:%s" % kind}
 
 
+def s_eq_same(rng, w, a, variant):
+    """an (in)equality between a variable and itself; between two parameters bound to the same object"""
+    kind, = variant
+    ensure_aux(w)
+    while len(a["params"]) < 2:
+        a["params"] = list(a["params"]) + [("?y%d" % len(a["params"]), "object")]
+    x, y = _vars(a)[0], _vars(a)[1]
+    lit = {"eq-self": ["=", x, x], "neq-self": ["not", ["=", x, x]], "eq-pair": ["=", x, y], "neq-pair": ["not", ["=", y, x]]}[kind]
+    r = rng.random()
+    if r < 0.4:
+        a["pre"] = _and_body(a["pre"]) + [lit]
+    elif r < 0.7:
+        a["pre"] = _and_body(a["pre"]) + [["or", lit, _zlit(rng, w, list(a["params"]))]]
+    else:
+        a["pre"] = ["and"]
+        a["eff"] = a["eff"] + [["when", lit, ["pw"]]]
+    return {"fluents": {}, "facts": ["pz", "pu"], "focus": a["name"], "tag": "eq-same:%s" % kind, "calls": 4}
+
+
+def s_cmp_forms(rng, w, a, variant):
+    """comparisons whose operands are both compound, whose first operand is a numeral, numeric '=' over an arithmetic
+    first operand, arithmetic over two numerals"""
+    kind, = variant
+    ensure_aux(w)
+    scope = list(a["params"])
+    f1, f2 = _zfl(rng, w, scope), _zfl(rng, w, scope)
+    cop = rng.choice(["<=", ">=", "<", ">"])
+    n1, n2 = rng.choice(["1", "0.5", "2", "-1"]), rng.choice(["2", "0.25", "3"])
+    form = {"both-compound": [cop, [rng.choice(["+", "-", "*"]), f1, n1], [rng.choice(["+", "-", "*", "/"]), f2, n2]],
+            "numeral-first": [cop, n1, f1],
+            "numeral-first-arith": [cop, n1, ["-", f1, f2]],
+            "eq-arith-lhs": ["=", ["+", f1, n1], rng.choice([n2, f2])],
+            "two-numerals-arith": [cop, f1, [rng.choice(["+", "-", "*", "/"]), n1, n2]],
+            "nested-arith": [cop, ["*", ["+", f1, n1], ["-", f2, n2]], ["/", ["+", f1, f2], n2]]}[kind]
+    if rng.random() < 0.6:
+        a["pre"] = _and_body(a["pre"]) if rng.random() < 0.3 else ["and"]
+        a["pre"] = a["pre"] + [form]
+    else:
+        a["pre"] = ["and"]
+        a["eff"] = a["eff"] + [["when", form, ["pw"]]]
+    vals = [0.5, 0.0, 1.0, 2.0, -1.0, 1.5, 3.0]
+    return {"fluents": {"fz": vals, "fu": vals}, "facts": [], "focus": a["name"], "tag": "cmp-forms:%s" % kind, "random_only": True}
+
+
 SHAPES = {}
+for _k in ("eq-self", "neq-self", "eq-pair", "neq-pair"):
+    SHAPES["eq-same:%s" % _k] = (s_eq_same, (_k,))
+for _k in ("both-compound", "numeral-first", "numeral-first-arith", "eq-arith-lhs", "two-numerals-arith", "nested-arith"):
+    SHAPES["cmp-forms:%s" % _k] = (s_cmp_forms, (_k,))
 for _sop in TWIN_SIBLINGS:
     for _ctx in TWIN_CONTEXTS:
         for _mode in TWIN_MODES:
@@ -1031,7 +1161,7 @@ for _where in ("bare", "and", "or", "forall-when"):
     SHAPES["forall-in-when:%s" % _where] = (s_forall_in_when, (_where,))
 for _where in ("pre", "when", "forall-when"):
     SHAPES["const-in-range:%s" % _where] = (s_const_in_range, (_where,))
-for _where in ("pre", "pre-num", "eff", "eff-num", "when-ante", "when-result"):
+for _where in ("pre", "pre-num", "eff", "eff-num", "when-ante", "when-result", "forall-pre", "forall-when"):
     SHAPES["const-first:%s" % _where] = (s_const_first, (_where,))
 for _where in ("pre", "eff"):
     SHAPES["wide-vocab:%s" % _where] = (s_wide_vocab, (_where,))
@@ -1155,8 +1285,11 @@ def domain_tree(w, rng, name="dom"):
         d.append([":functions"] + [[n] + (G.typed(ps, True) if n == "fg" and getattr(w, "grouped_function", False) else G.typed(ps))
                                    for n, ps in w.funcs])
     for a in w.actions:
-        d.append([":action", a["name"], ":parameters", typed2(rng, a["params"]),
-                  ":precondition", a["pre"], ":effect", a["eff"]])
+        parts = {":parameters": typed2(rng, a["params"]), ":precondition": a["pre"], ":effect": a["eff"]}
+        act = [":action", a["name"]]
+        for key in a.get("layout", [":parameters", ":precondition", ":effect"]):
+            act += [key, parts[key]]
+        d.append(act)
     return d
 
 
